@@ -673,6 +673,9 @@ static void WikiSort(T *restrict array, const size_t size) {
 					else if (Range_length(buffer2) > 0)
 						BlockSwap(array, lastA.start, buffer2.start, Range_length(lastA));
 					
+					/* with too few unique values for the internal buffer block_size can
+					 * exceed the size of A, then there is no full A block to roll */
+					if (Range_length(blockA) > 0)
 					while (true) {
 						/* if there's a previous B block and the first value of the minimum A block is <= the last value of the previous B block, */
 						/* then drop that minimum A block behind. or if there are no B blocks left then keep dropping the remaining A blocks. */
